@@ -25,19 +25,24 @@ def main():
     if "calls_file" in params:
         calls = json.loads(Path(params["calls_file"]).read_text())
         it = (c for k, c in enumerate(calls) if k % sn == si)
+    elif "gen" in params:
+        g = importlib.import_module("vlib.gens." + params["gen"])
+        it = (c for k, c in enumerate(g.gen(params)) if k % sn == si)
     else:
         it = (c for k, c in enumerate(drv.gen(params)) if k % sn == si)
     buf, k, n = [], 0, 0
     tag = os.path.basename(out_prefix)
+    multi = hasattr(drv, "execute_all")
     for call in it:
-        rec = drv.execute(call)
-        if rec is None:
-            continue
-        rec["call"] = call
-        n += 1
-        # ids are unique across drivers, back ends and slices
-        rec["id"] = f"{tag}.{si}.{n}"
-        buf.append(rec)
+        recs = drv.execute_all(call) if multi else [drv.execute(call)]
+        for rec in recs:
+            if rec is None:
+                continue
+            rec["call"] = call
+            n += 1
+            # ids are unique across drivers, back ends and slices
+            rec["id"] = f"{tag}.{si}.{n}"
+            buf.append(rec)
         if len(buf) >= shard_size:
             Path(f"{out_prefix}-{si:02d}-{k:04d}.json").write_text(json.dumps(buf, separators=(",", ":")))
             buf, k = [], k + 1
